@@ -11,6 +11,7 @@ action at a distance through an alias is as visible as a change to an argument -
 call is made twice with the same arguments and the same random stream: the results must
 be equal.
 """
+import copy
 import json
 import random
 import warnings
@@ -484,14 +485,32 @@ class World:
         st["seams"].restore()
 
     # -- pool helpers
-    def _add(self, st, t, obj, derived=False):
+    def _add(self, st, t, obj, derived=False, twin=None):
         if len(st["pool"]) >= POOL_CAP:
             return False
         st["pool"].append((t, obj))
+        st.setdefault("twins", []).append(twin)
         st["snaps"].append(json.dumps(snap_obj(t, obj), sort_keys=True))
         if derived:
             st["derived"].add(len(st["pool"]) - 1)
         return True
+
+    def _prov_size(self, prov):
+        if prov is None:
+            return 10 ** 6
+        return 1 if prov[0] == "mk" else 1 + sum(self._prov_size(p_) for p_ in prov[2])
+
+    def _fresh(self, st, prov):
+        """Rebuild an object from its provenance: the constructor spec it came from, or the operation (with the
+        same arguments, rebuilt the same way, and the same random seed) that returned it."""
+        if prov[0] == "mk":
+            return self._build(st, prov[1])
+        _, name, aprovs, k, rs = prov
+        args = [self._fresh(st, p_) for p_ in aprovs]
+        st["rng"].begin_step(rs)
+        st["sim_obj"] = st["Sim"](seed=st["sim_seed"])
+        env = self._env(None, st, None)
+        return OPS[name][1](st["L"], args, k, env)
 
     def _snap_all(self, st):
         return [json.dumps(snap_obj(t, o), sort_keys=True) for t, o in st["pool"]]
@@ -569,7 +588,7 @@ class World:
                 return
             if step["op"] == "mk":
                 ok, obj = call(self._build, st, step["args"])
-                if ok and self._add(st, step["args"]["t"], obj):
+                if ok and self._add(st, step["args"]["t"], obj, twin=("mk", step["args"])):
                     ctx.log("mk", "ok", _sig=step["args"]["t"])
                 else:
                     ctx.log("mk", "skip", _sig=step["args"]["t"])
@@ -577,7 +596,6 @@ class World:
             self._do_call(ctx, st, step, step["args"])
 
     def _env(self, ctx, st, step):
-        a = step["args"]
 
         def qubits(d, k):
             n = d.get_number_of_subsystems()
@@ -667,6 +685,36 @@ class World:
             after2 = self._snap_all(st)
         if c1 != c2:
             ctx.fail("not-repeatable", name, f"{name} on the same arguments returned {c1[:400]} and then {c2[:400]}")
+        # history independence: the same operation on PRISTINE TWINS of the arguments - objects with the same value that
+        # have never been through a library call (deep copies of second builds / of earlier twin results) - must give
+        # the same answer.  What an object has been asked before is not part of its value.
+        twin_res = None
+        twins = st.get("twins", [])
+        provs = [twins[j] if j < len(twins) else None for j in idxs]
+        if (not name.endswith("_save") and name != "d_save_list" and all(p_ is not None for p_ in provs)
+                and sum(self._prov_size(p_) for p_ in provs) <= 10):
+            ok_c, targs = call(lambda: [self._fresh(st, p_) for p_ in provs])
+            if ok_c:
+                st["rng"].begin_step(step["rs"])
+                st["sim_obj"] = st["Sim"](seed=st["sim_seed"])
+                st["fs"].begin_call(None)
+                try:
+                    try:
+                        with time_limit(45):
+                            ok_t, res_t = call(fn, L, targs, a["k"], env)
+                    except WallLimit:
+                        ok_t, res_t = False, None
+                finally:
+                    st["fs"].end_call()
+                if ok_t:
+                    with judge(ctx, "malformed-result"):
+                        c_t = json.dumps(canon_any(res_t, L), sort_keys=True)
+                    ctx.probe("twin-compared")
+                    if c_t != c1:
+                        ctx.fail("history-dependent", name,
+                                 f"{name} on objects that had been used before returned {c1[:300]}, on objects of the same value rebuilt "
+                                 f"from scratch (same constructors, same operations, never used otherwise) {c_t[:300]}")
+                    twin_res = ("call", name, provs, list(a["k"]), step["rs"])
         if after2 != before:
             bad = [i for i, (x, y) in enumerate(zip(before, after2)) if x != y]
             st["snaps"] = after2
@@ -710,21 +758,21 @@ class World:
         if name == "m_new":
             ctx.probe("shared-bitstring-list")
         if t is not None:
-            self._add(st, t, res, derived=True)
+            self._add(st, t, res, derived=True, twin=twin_res)
         elif name in ("c_to_dict",) and isinstance(res, dict):
-            self._add(st, "DD", res, derived=True)
+            self._add(st, "DD", res, derived=True, twin=twin_res)
         elif name == "p_to_dict" and isinstance(res, dict):
-            self._add(st, "OD", res, derived=True)
+            self._add(st, "OD", res, derived=True, twin=twin_res)
         elif name == "m_counts" and isinstance(res, dict) and res:
-            self._add(st, "CD", res, derived=True)
+            self._add(st, "CD", res, derived=True, twin=twin_res)
         elif name == "p_terms" and isinstance(res, list):
-            self._add(st, "TL", res, derived=True)
+            self._add(st, "TL", res, derived=True, twin=twin_res)
         elif name == "w_sample" and isinstance(res, list):
-            self._add(st, "BL", res, derived=True)
+            self._add(st, "BL", res, derived=True, twin=twin_res)
         elif name in ("w_amplitudes", "w_flip_amplitudes", "w_apply_op") and isinstance(res, np.ndarray) and res.ndim == 1:
-            self._add(st, "V", res, derived=True)
+            self._add(st, "V", res, derived=True, twin=twin_res)
         elif name == "p_circuits" and isinstance(res, list):
-            if self._add(st, "CL", res, derived=True):
+            if self._add(st, "CL", res, derived=True, twin=twin_res):
                 st["tainted"].add(len(st["pool"]) - 1)   # the library's own cached list
         ctx.log("call", "ok", _sig=name)
 
@@ -865,6 +913,8 @@ class World:
             ctx.log("mutate", "skip", _sig=t)
             return
         ctx.probe("client-mutation")
+        if j < len(st.get("twins", [])):
+            st["twins"][j] = None   # an edited container has no recipe any more: no rebuilt twin for it
         with judge(ctx, "malformed-object"):
             now = self._snap_all(st)
         others = [i for i, (x, y) in enumerate(zip(before, now)) if x != y and i != j]
